@@ -90,6 +90,13 @@ func (w *World) ApplyTx(raw []byte, res TxResult) TxOutcome {
 	}
 	out.Decoded = true
 	out.Type = tx.Type
+	w.txIdx++
+	if w.EVM != nil && w.isContractPath(tx) {
+		w.txIdx--
+		w.applyEVMTx(tx, raw, res, &out)
+		w.txIdx++
+		return out
+	}
 	if res.Code != 0 {
 		out.Reason = classifyLog(res.Log)
 		switch out.Reason {
